@@ -144,7 +144,7 @@ def parse_kv(line):
 
 # ---- stages ------------------------------------------------------------------------------
 
-def stage_extract(ctx, widgets=False, composer=False):
+def stage_extract(ctx, widgets=False, composer=False, prover=False):
     rc, out = sh([sys.executable, os.path.join(HERE, "extract.py"), "--repo", REPO,
                   "--json", os.path.join(ctx.work, "generated.json")])
     ctx.notes.append(out.strip())
@@ -154,6 +154,12 @@ def stage_extract(ctx, widgets=False, composer=False):
                        os.path.join(LEAN, "Plonk", "GeneratedWidgets.lean")])
         ctx.notes.append(out2.strip())
         out = out + out2
+    if rc == 0 and prover:
+        # fourth translator: the prover-side glue (quotient numerator, accumulator, linearisation, evaluations) -> GeneratedProver.lean
+        rc, out4 = sh([sys.executable, os.path.join(HERE, "rs2lean_prover.py"), REPO,
+                       os.path.join(LEAN, "Plonk", "GeneratedProver.lean")])
+        ctx.notes.append(out4.strip()[-400:])
+        out = out + out4
     if rc == 0 and composer:
         # third translator: the Constraint builder and the straight-line composer gadgets -> Plonk/GeneratedComposer.lean
         rc, out3 = sh([sys.executable, os.path.join(HERE, "rs2lean_composer.py"), REPO,
@@ -247,7 +253,7 @@ def main():
         "Lean 4.33 kernel; Mathlib v4.33 as a library of kernel-checked theorems",
         "axioms allowed: propext, Classical.choice, Quot.sound (checked by #print axioms on every property theorem)",
         "tools/extract.py (copies constants/orderings from /repo/src into Generated.lean)",
-        "tools/rs2lean.py / tools/rs2lean_composer.py where the property's targets include WidgetTie / ComposerTie (Rust subset -> Lean definitions)",
+        "tools/rs2lean.py / tools/rs2lean_composer.py / tools/rs2lean_prover.py where the property's targets include WidgetTie / ComposerTie / ProverTie (Rust subset -> Lean definitions)",
         "differential correspondence harness (Rust, in-process calls into /repo built with --features verif) vs. the native Lean driver",
     ] + list(getattr(mod, "TRUSTED", []))
     cov["checker_cmd"] = "cd lean && lake build %s && lake env lean Plonk/Audit/%s.lean" % (" ".join(mod.LEAN_TARGETS), prop)
@@ -258,8 +264,9 @@ def main():
     lock_f = open(os.path.join(VERIF, "work", ".build.lock"), "w")
     fcntl.flock(lock_f, fcntl.LOCK_EX)
     broken = None   # (stage, text)
-    rc, out = stage_extract(ctx, widgets="Plonk.Props.WidgetTie" in mod.LEAN_TARGETS,
-                            composer="Plonk.Props.ComposerTie" in mod.LEAN_TARGETS)
+    rc, out = stage_extract(ctx, widgets=("Plonk.Props.WidgetTie" in mod.LEAN_TARGETS or "Plonk.Props.ProverTie" in mod.LEAN_TARGETS),
+                            composer="Plonk.Props.ComposerTie" in mod.LEAN_TARGETS,
+                            prover="Plonk.Props.ProverTie" in mod.LEAN_TARGETS)
     if rc != 0:
         broken = ("extract", out)
     if not broken:
